@@ -37,7 +37,7 @@ class DpopSpec(netx.Spec):
     def check_state(self, world, event, report):
         if world.exception is not None:
             ev, et, msg, where = world.exception
-            report(f"C01|handler-raised|{et}|{where[-1]}", f"{self._desc()}: event {ev} raised {et}: {msg} at {where}")
+            report(f"C01|handler-raised|{et}|{netx.site(where)}", f"{self._desc()}: event {ev} raised {et}: {msg} at {where}")
 
     def check_end(self, world, report):
         if world.exception is not None:
